@@ -23,7 +23,8 @@ def sentinelCmd (seq : Nat) : Bytes := Resp.encodeCmd [ofStr "PING", sentinelTok
 def serveLine (st : ServeSt) (fs : List String) : ServeSt × Option (Except String Bool) :=
   match fs with
   | ["S", n] => ({ srv := Server.init (n.toNat?.getD 16) }, some (.ok false))
-  | "PAR" :: _ => (st, some (.ok false))   -- marker: the following C lines were written concurrently (disjoint keys: any order gives these replies)
+  | "PAR" :: _ => (st, some (.ok false))
+  | "STALL" :: _ => (st, some (.ok false))   -- marker: the client read the following C line's replies after a pause (same replies expected)   -- marker: the following C lines were written concurrently (disjoint keys: any order gives these replies)
   | ["K", c] =>
     match c.toNat? with
     | some c => ({ st with srv := st.srv.clientClose c }, some (.ok false))
